@@ -191,7 +191,7 @@ func TestVerifC07Reply(t *testing.T) {
 		}
 		return
 	}
-	r := vh.NewRng(vh.Seed() + 73)
+	r := vh.NewRng(vh.Seed() + 73).Fork()
 	for _, c := range vdmarc.Corpus() {
 		c07Reply(out, c, seedOK)
 	}
